@@ -591,6 +591,7 @@ def _holder_membership_only(fn, holder, parents):
 
 def _id_use_is_bookkeeping(fn, n, parents):
     p = parents.get(id(n))
+    named = None
     if isinstance(p, ast.NamedExpr) and p.value is n and isinstance(p.target, ast.Name):
         # (ident := id(x)): the walrus itself sits in a membership / equality test, and every later use of the name is
         # a membership test, an equality test or an append to a list that is only used for membership
@@ -598,8 +599,21 @@ def _id_use_is_bookkeeping(fn, n, parents):
         if not (isinstance(gp, ast.Compare) and all(isinstance(op, (ast.In, ast.NotIn, ast.Eq, ast.NotEq, ast.Is, ast.IsNot))
                                                     for op in gp.ops)):
             return False
+        named = p.target.id
+    elif isinstance(p, ast.Assign) and p.value is n and len(p.targets) == 1 and isinstance(p.targets[0], ast.Name):
+        # ident = id(x): a local that holds nothing else, used like the walrus form
+        named = p.targets[0].id
+        def targets_of(a):
+            return a.targets if isinstance(a, ast.Assign) else [a.target]
+        others = [a for a in ast.walk(fn.node) if isinstance(a, (ast.Assign, ast.AugAssign, ast.AnnAssign, ast.For, ast.NamedExpr))
+                  and a is not p and any(isinstance(t, ast.Name) and t.id == named for tt in targets_of(a) for t in ast.walk(tt))
+                  and not (isinstance(a, ast.Assign) and isinstance(a.value, ast.Call) and isinstance(a.value.func, ast.Name)
+                           and a.value.func.id == "id")]
+        if others:
+            return False
+    if named is not None:
         for x in ast.walk(fn.node):
-            if isinstance(x, ast.Name) and x.id == p.target.id and isinstance(x.ctx, ast.Load):
+            if isinstance(x, ast.Name) and x.id == named and isinstance(x.ctx, ast.Load):
                 px = parents.get(id(x))
                 if isinstance(px, ast.Compare) and all(isinstance(op, (ast.In, ast.NotIn, ast.Eq, ast.NotEq, ast.Is, ast.IsNot))
                                                        for op in px.ops):
